@@ -44,6 +44,9 @@ pub enum Case {
 	FailAt { blocks: u32 },
 	/// two parts over two channels; which part goes first, ticks / blocks in between, mismatch kind
 	Mpp { first: usize, split: u64, ticks_between: u32, blocks_between: u32, mismatch: u8, policy: u8 },
+	/// the penultimate hop (an LSP) skims a fee and the recipient accepts underpaying HTLCs; the
+	/// payment is held for `ticks` timer ticks and then claimed
+	Skimmed { skim_msat: u64, ticks: u32 },
 	/// spontaneous (keysend) payment with / without a payment secret
 	Keysend { with_secret: bool },
 }
@@ -412,6 +415,119 @@ pub fn run_case(c: &Case) -> Result<CaseResult, (String, String)> {
 				claimable_shown: !s.claimable.is_empty(),
 			})
 		},
+		Case::Skimmed { skim_msat, ticks } => {
+			// A - B(LSP, intercepts) - C(accepts underpaying HTLCs)
+			let mut cb = user_config(Ct::Static);
+			cb.htlc_interception_flags = 1; // ToInterceptSCIDs
+			let mut cc = user_config(Ct::Static);
+			cc.channel_config.accept_underpaying_htlcs = true;
+			let mut w = World::new(vec![user_config(Ct::Static), cb, cc], 253);
+			let c0 = w.open_channel(0, 1, 1_000_000, 100_000_000);
+			let c1 = w.open_channel(1, 2, 1_000_000, 100_000_000);
+			w.obs_cursor = w.obs.len();
+			w.intercept_skim_msat = Some(*skim_msat);
+			let secret = w.nodes[2].cm.create_inbound_payment_for_hash(hash, Some(m), 7200, None, None).expect("register").0;
+			w.payments.push(PaymentRec {
+				id: PaymentId(hash.0),
+				hash,
+				preimage: pre,
+				secret,
+				from: 0,
+				to: 2,
+				amount_msat: m,
+				policy: ClaimPolicy::Hold,
+				send_ok: true,
+				send_err: String::new(),
+				claimed_by_recipient: false,
+				failed_by_recipient: false,
+			});
+			use lightning::routing::router::{Path, PaymentParameters, Route, RouteHop, RouteParameters};
+			let ch0 = w.chan(0, &c0).unwrap();
+			let _ = c1;
+			let iscid = w.nodes[1].cm.get_intercept_scid();
+			let route = Route {
+				paths: vec![Path {
+					hops: vec![
+						RouteHop {
+							pubkey: w.nodes[1].id,
+							node_features: w.nodes[1].cm.node_features(),
+							short_channel_id: ch0.short_channel_id.unwrap(),
+							channel_features: w.nodes[1].cm.channel_features(),
+							fee_msat: 1000,
+							cltv_expiry_delta: 100,
+							maybe_announced_channel: true,
+						},
+						RouteHop {
+							pubkey: w.nodes[2].id,
+							node_features: w.nodes[2].cm.node_features(),
+							short_channel_id: iscid,
+							channel_features: w.nodes[2].cm.channel_features(),
+							fee_msat: m,
+							cltv_expiry_delta: 60,
+							maybe_announced_channel: false,
+						},
+					],
+					blinded_tail: None,
+				}],
+				route_params: RouteParameters::from_payment_params_and_value(PaymentParameters::from_node_id(w.nodes[2].id, 60), m),
+			};
+			let r = w.nodes[0].cm.send_payment_with_route(route, hash, RecipientOnionFields::secret_only(secret, m), PaymentId(hash.0));
+			if r.is_err() {
+				return Err(viol("harness", format!("skimmed send refused: {:?}", r)));
+			}
+			w.pump();
+			w.run_to_quiescence(600);
+			let claimable: Vec<(u64, u64, Option<u32>)> = w
+				.obs
+				.iter()
+				.filter_map(|o| match o {
+					Obs::Event { node: 2, ev: Event::PaymentClaimable { payment_hash, amount_msat, counterparty_skimmed_fee_msat, claim_deadline, .. } } if *payment_hash == hash => {
+						Some((*amount_msat, *counterparty_skimmed_fee_msat, *claim_deadline))
+					},
+					_ => None,
+				})
+				.collect();
+			if claimable.len() != 1 {
+				return Err(viol("harness", format!("skimmed payment not shown claimable: {:?}", claimable)));
+			}
+			if claimable[0].0 + claimable[0].1 != m || claimable[0].1 != *skim_msat {
+				return Err(viol("claimable-amount", format!("PaymentClaimable amount {} + skimmed {} for {} msat intended", claimable[0].0, claimable[0].1, m)));
+			}
+			let deadline = claimable[0].2.unwrap_or(0);
+			for _ in 0..*ticks {
+				w.nodes[2].cm.timer_tick_occurred();
+				w.pump();
+				w.run_to_quiescence(600);
+			}
+			let h = w.nodes[2].cm.current_best_block().height;
+			let failed_before = w.obs.iter().any(|o| matches!(o, Obs::Sent { from: 2, wire: Wire::Fail(_), .. }));
+			if h < deadline && failed_before {
+				return Err(viol(
+					"failed-before-deadline",
+					format!("a complete, already claimable payment was failed back after {} timer tick(s) at height {} < claim_deadline {}", ticks, h, deadline),
+				));
+			}
+			w.nodes[2].cm.claim_funds(pre);
+			w.payments[0].claimed_by_recipient = true;
+			w.pump();
+			w.run_to_quiescence(600);
+			let claimed: Vec<u64> = w
+				.obs
+				.iter()
+				.filter_map(|o| match o {
+					Obs::Event { node: 2, ev: Event::PaymentClaimed { payment_hash, amount_msat, .. } } if *payment_hash == hash => Some(*amount_msat),
+					_ => None,
+				})
+				.collect();
+			let sent = w.obs.iter().filter(|o| matches!(o, Obs::Event { node: 0, ev: Event::PaymentSent { payment_hash, .. } } if *payment_hash == hash)).count();
+			if claimed != vec![m - *skim_msat] || sent != 1 {
+				return Err(viol(
+					"claim-before-deadline",
+					format!("claim_funds after {} tick(s) at height {} < claim_deadline {}: PaymentClaimed {:?} PaymentSent x{}", ticks, h, deadline, claimed, sent),
+				));
+			}
+			Ok(CaseResult { label: "claimed".into(), claimable_shown: true })
+		},
 		Case::Keysend { with_secret } => {
 			// spontaneous payment: B never registered anything; the preimage travels in the onion
 			let fields = if *with_secret {
@@ -478,6 +594,11 @@ pub fn cases(tier: Tier) -> Vec<Case> {
 	}
 	for b in [0u32, 5, 19] {
 		v.push(Case::FailAt { blocks: b });
+	}
+	for skim in [1u64, 1000, 1_000_000] {
+		for ticks in [0u32, 1, 2, 4] {
+			v.push(Case::Skimmed { skim_msat: skim, ticks });
+		}
 	}
 	for first in [0usize, 1] {
 		for split in if th { vec![1u64, 1_000_000, 25_000_000, 49_999_999] } else { vec![1_000_000u64, 25_000_000] } {
